@@ -415,7 +415,7 @@ def check(ctx, case):
 
 def shard_main(ctx):
     from hypothesis import given
-    n = {"quick": 250, "thorough": 8000}[ctx.tier]
+    n = {"quick": 700, "thorough": 12000}[ctx.tier]
 
     @given(cases())
     def test(case):
